@@ -78,7 +78,9 @@ func (z *zeroReadSrc) Read(p []byte) (int, error) {
 	return n, nil
 }
 
-func (c *Ctx) c02Case(kind string, key, plain, honest, ct []byte) { c.c02CaseK(kind, key, plain, honest, ct, false) }
+func (c *Ctx) c02Case(kind string, key, plain, honest, ct []byte) {
+	c.c02CaseK(kind, key, plain, honest, ct, false)
+}
 
 // keyed: the altered ciphertext contains chunks sealed by someone who knows the
 // key (other counter / flag / split): a legitimate different file, for which
@@ -216,7 +218,7 @@ func checkC02(c *Ctx) {
 			"c0": c0, "c1": c1,
 			"c0-as-final": sealChunk(key, 0, true, p0), "c1-as-nonfinal": sealChunk(key, 1, false, p1),
 			"c0-ctr1": sealChunk(key, 1, false, p0), "c0-ctr1-final": sealChunk(key, 1, true, p0), "c1-ctr0": sealChunk(key, 0, true, p1),
-			"c1-ctr2": sealChunk(key, 2, true, p1),
+			"c1-ctr2":  sealChunk(key, 2, true, p1),
 			"c0-short": c0[:len(c0)-1], "c1-short": c1[:len(c1)-1],
 			"empty-final-ctr0": sealChunk(key, 0, true, nil), "empty-final-ctr1": sealChunk(key, 1, true, nil), "empty-final-ctr2": sealChunk(key, 2, true, nil),
 			"foreign-c0": sealChunk(foreign, 0, false, p0), "foreign-c1": sealChunk(foreign, 1, true, p1),
